@@ -7,6 +7,8 @@ var units = map[string]common.UnitFunc{
 	"c01direct": unitC01direct,
 	"c01orch":   unitC01orch,
 	"c05":       unitC05,
+	"c09":       unitC09,
+	"c11crypto": unitC11crypto,
 	"c08":       unitC08,
 	"c18deal":   unitC18deal,
 	"c18dkg":    unitC18dkg,
